@@ -16,7 +16,10 @@ def key_eq(a, b):
     if is_byteslike(a) or is_byteslike(b):
         return False
     if isinstance(a, str) or isinstance(b, str):
-        return isinstance(a, str) and isinstance(b, str) and a == b
+        if not (isinstance(a, str) and isinstance(b, str)):
+            return False
+        from . import strings
+        return strings.str_eq(a, b)
     if _isint(a) and _isint(b):
         if isinstance(a, int) and isinstance(b, int):
             return a == b
